@@ -456,7 +456,7 @@ def check_C01(ctx):
     ctx.rule = ("TLC enumerates every duplicate-free insertion order over every subset of Ids x every acyclic is_a relation "
                 "(x every edge supply order at 3 ids); each completed behaviour is replayed into the real crate under several "
                 "order-preserving id concretisations (refinement HpoAlgo => HpoCore model-checked over the whole pipeline) and through every construction path (Builder x3 supply orders, defaults, "
-                "as_bytes round trip, independently encoded binary v1-v3 with and without permuted records, hp.obo via both JAX loaders); "
+                "as_bytes round trip, independently encoded binary v1-v3 with and without permuted records, hp.obo via both JAX loaders; sub_ontology: every accepted call of the HpoSub model, closure laws on the result); "
                 "non-trivial = behaviour with at least one is_a edge; distinct = distinct TLC states (arena order, edge set/order)")
     outs = []
     r = tlc(ctx, "mc/MC_Connect3free.cfg", "mc/MC_Connect.tla")
@@ -477,6 +477,15 @@ def check_C01(ctx):
         raise ToolError("TLC produced no behaviours to replay")
     s = hv(ctx, "replay-core", prop="C01", **{"in": allout}, jax_every=(8 if ctx.quick else 2))
     ctx.traces += s.get("cases", 0)
+    # the fourth construction path: every accepted sub_ontology call of the HpoSub model (and the 64-term wide source) - whichever allowed
+    # result the crate picks, its reported ancestors must be the closure of ITS reported parents, children the inverse, child_of / parent_of membership
+    subouts = [tlc(ctx, "mc/MC_Sub.cfg", "mc/MC_Sub.tla", workers=14, timeout=3000)["out"],
+               tlc(ctx, "mc/MC_SubWide.cfg", "mc/MC_SubWide.tla", workers=6, timeout=3000)["out"]]
+    if not ctx.quick:
+        subouts.append(tlc(ctx, "mc/MC_Sub5.cfg", "mc/MC_Sub.tla", workers=14, timeout=6000)["out"])
+    s = hv(ctx, "replay-sub", prop="C01", laws_only=1, **{"in": concat(ctx, subouts, "c01-sub-lines.txt")})
+    ctx.traces += s.get("cases", 0)
+    ctx.extra["sub_ontology_calls"] = s.get("cases", 0)
     trace_core(ctx, "C01", 10 if ctx.quick else 300)
     algo_drift(ctx, 20 if ctx.quick else 400)
     ctx.assumptions += [
